@@ -242,12 +242,16 @@ func c01(args []string) error {
 	// ---- large coordinates (up to 2^20): probes one lattice step off long sloped edges, judged by BigKernel.tla
 	for k := 0; k < nrandom/10; k++ {
 		g := []int{1, 1, 4, 32}[rng.Intn(4)]
-		pdx, pdy := 1+rng.Intn((1<<19)/g), 1+rng.Intn((1<<19)/g)
+		lim := (1 << 21) / g // coordinates in [-2^20, 2^20]: differences up to 2^21
+		pdx, pdy := 1+rng.Intn(lim-110), 1+rng.Intn(lim-110)
+		if k%2 == 0 { // both extents within 3% of the maximum: a relative tolerance of 1e-12 on the edge fractions starts to bite here
+			pdx, pdy = lim-110-rng.Intn(lim/32), lim-110-rng.Intn(lim/32)
+		}
 		for gcd(pdx, pdy) != 1 {
-			pdy++
+			pdy--
 		}
 		dx, dy := pdx*g, pdy*g
-		ax, ay := -dx/2+rng.Intn(101), -dy/2+rng.Intn(101)
+		ax, ay := -dx/2+rng.Intn(101)-100, -dy/2+rng.Intn(101)-100
 		x, y := bezout(pdx, pdy)
 		j := rng.Intn(g)
 		var sh Shape
